@@ -14,6 +14,7 @@ import (
 	"github.com/sdcio/data-server/pkg/cache"
 	dconfig "github.com/sdcio/data-server/pkg/config"
 	"github.com/sdcio/data-server/pkg/datastore"
+	"github.com/sdcio/data-server/pkg/datastore/target"
 	"github.com/sdcio/data-server/pkg/datastore/types"
 	"github.com/sdcio/data-server/pkg/utils"
 	sdcpb "github.com/sdcio/sdc-protos/sdcpb"
@@ -176,6 +177,8 @@ type WorldOpts struct {
 	Sync       *dconfig.Sync
 	Fragments  map[string]*Fragment
 	Timeout    time.Duration
+	// MakeTarget, if set, builds the southbound target (instead of the recording device) once the bound schema client exists.
+	MakeTarget func(w *World) target.Target
 }
 
 // World is one fresh system instance: real datastore over a real cache instance and a recording device.
@@ -189,6 +192,7 @@ type World struct {
 	Cfg   *dconfig.DatastoreConfig
 	DS    *datastore.Datastore
 	Dev   *Device
+	Target target.Target
 	Frags map[string]*Fragment
 	Opts  WorldOpts
 	txSeq int
@@ -219,7 +223,13 @@ func NewWorld(u *Universe, raw cache.Client, initial []Leaf, o WorldOpts) (*Worl
 	}
 	w.Dev = NewDevice()
 	w.Dev.RenderAll = o.RenderAll
-	w.DS = datastore.NewForVerif(w.Cfg, w.SC, w.CC, w.Dev)
+	w.Target = w.Dev
+	w.DS = datastore.NewForVerif(w.Cfg, w.SC, w.CC, w.Target)
+	if o.MakeTarget != nil {
+		// the production NETCONF/gNMI targets need the datastore's bound schema client
+		w.Target = o.MakeTarget(w)
+		w.DS = datastore.NewForVerif(w.Cfg, w.SC, w.CC, w.Target)
+	}
 	if len(initial) > 0 {
 		if err := w.preloadRunning(ctx, initial); err != nil {
 			w.Close()
@@ -231,7 +241,7 @@ func NewWorld(u *Universe, raw cache.Client, initial []Leaf, o WorldOpts) (*Worl
 
 // Reopen abandons the Datastore object and builds a new one over the same cache instance and device (a restart).
 func (w *World) Reopen() {
-	w.DS = datastore.NewForVerif(w.Cfg, w.SC, w.CC, w.Dev)
+	w.DS = datastore.NewForVerif(w.Cfg, w.SC, w.CC, w.Target)
 }
 
 // Close deletes the cache instance (skipped for pooled caches, whose whole directory is dropped instead:
